@@ -12,16 +12,14 @@ theorem bind_ok {α β : Type} {x : Res α} {f : α → Res β} {r : β} (h : (x
 theorem typeComment_kind (o : Opts) (level : Nat) (c : Fields) (ls : List Line)
     (h : typeComment o level c = .ok ls) : ∀ l ∈ ls, l.kind = .comment := by
   unfold typeComment at h
-  split at h
-  · injection h with h; subst h; simp
-  · split at h <;> (injection h with h; subst h; simp)
-  · split at h
-    · split at h
-      · injection h with h; subst h; simp
-      · injection h with h; subst h
-        intro l hl; simp at hl; obtain ⟨s, _, rfl⟩ := hl; rfl
-    · simp at h
-  · simp at h
+  cases ht : typeCommentTexts c with
+  | error e => simp [ht, Except.map] at h
+  | ok ss =>
+    simp only [ht, Except.map] at h
+    injection h with h; subst h
+    split
+    · simp
+    · intro l hl; simp at hl; obtain ⟨s, _, rfl⟩ := hl; rfl
 
 theorem kvLines_attrs (o : Opts) (level aligned : Nat) (c : Fields) (d : Fields) (ls : List Line)
     (h : kvLines o level aligned c d = .ok ls) : ∀ l ∈ ls, l.kind = .attr ∧ l.lvl = level + 2 := by
